@@ -227,6 +227,11 @@ pub enum G {
     /// iterable parsers chained with `IterParser for Then` (`p1.then(p2)`, items of p1 followed by the items of
     /// p2; a single link = that iterable used directly), then a sink.  One or two links.
     IterChain(Vec<Part>, Sink),
+    /// a context provider used as an ITERABLE parser (`IterParser for IgnoreWithCtx / ThenWithCtx`):
+    /// `a.ignore_with_ctx(item.repeated()<bounds>)` (kind / 3 == 0) or `a.then_with_ctx(..)` (== 1), bounds (kind % 3):
+    /// none, `configure(at_most(count_of(ctx)))`, `configure(exactly(count_of(ctx)))`; then a sink.  `a` runs in
+    /// make_iter (after the initial parser of a left fold), its output is the context of every item
+    CtxIter(u8, Box<G>, Box<G>, Sink),
 }
 
 pub use G::*;
@@ -264,6 +269,11 @@ impl G {
             }
             IterChain(ps, k) => {
                 let mut v: Vec<&G> = ps.iter().flat_map(|p| p.children()).collect();
+                v.extend(k.child());
+                v
+            }
+            CtxIter(_, a, c, k) => {
+                let mut v = vec![&**a, &**c];
                 v.extend(k.child());
                 v
             }
@@ -370,6 +380,7 @@ pub fn nullable(g: &G) -> bool {
         }
         RepCtx(_) | RepCtxMax(_) | TryRepCtx(_) | RepCtxPre(..) | CtxBare(..) => true,
         IntoIter(a, sink) => nullable(a) && sink.child().map(nullable).unwrap_or(true),
+        CtxIter(_, a, _, sink) => nullable(a) && sink.child().map(nullable).unwrap_or(true),
         // conservative: every link may yield nothing without consuming
         IterChain(ps, sink) => {
             ps.iter().all(|p| match p {
@@ -671,6 +682,11 @@ impl fmt::Display for G {
                 write!(f, ";{}]({})", k, a)
             }
             CtxBare(k, a) => write!(f, "ctx_bare{}({})", k, a),
+            CtxIter(kind, a, c, k) => {
+                write!(f, "ctx_iter{}[", kind)?;
+                sink(f, k)?;
+                write!(f, "]({},{})", a, c)
+            }
             IntoIter(a, k) => {
                 write!(f, "into_iter[")?;
                 sink(f, k)?;
@@ -1038,6 +1054,14 @@ impl<'a> P<'a> {
                 SepBy(a, c, x, l, t, s)
             }
             o => {
+                if let Some(rest) = o.strip_prefix("ctx_iter") {
+                    let k: u8 = rest.parse().map_err(|e| format!("ctx_iter kind: {e}"))?;
+                    self.eat('[')?;
+                    let s = self.sink()?;
+                    self.eat(']')?;
+                    let (a, c) = bin(self)?;
+                    return Ok(CtxIter(k, a, c, s));
+                }
                 if let Some(rest) = o.strip_prefix("ctx_bare") {
                     let k: u8 = rest.parse().map_err(|e| format!("ctx_bare kind: {e}"))?;
                     return Ok(CtxBare(k, un(self)?));
